@@ -1,0 +1,7 @@
+//go:build !verif
+
+package bloomsearch
+
+func verifPoint(name string, a, b int64, ref any) {}
+
+func verifFS(op, path string) error { return nil }
